@@ -19,26 +19,19 @@ theorem save_eq (E : FloatExt) (s : Schema) (data : List (List Val)) (e : Err)
     (h : saveLines E s data = .error e) : save E s data = .error e := by
   simp [save, h, Except.map]
 
-/-- when every field has a name the validation cannot raise, so an invalid schema gives `False` -/
-theorem validate_false_of_invalid (s : Schema)
-    (hnames : ∀ fs, s.fields = some fs → ∀ f ∈ fs, f.name ≠ none) (hinv : ¬ SchemaValid s) :
-    validate s = .ok false := by
-  cases h : validate s with
-  | error e =>
-    obtain ⟨_, fs, hfs, f, hf, hn⟩ := validate_error s e h
-    exact absurd hn (hnames fs hfs f hf)
-  | ok b =>
-    cases b with
-    | false => rfl
-    | true => exact absurd ((validate_iff s).1 h) hinv
+/-- the validation cannot raise, so an invalid schema gives `False` -/
+theorem validate_false_of_invalid (s : Schema) (hinv : ¬ SchemaValid s) : validate s = .ok false := by
+  obtain ⟨b, hb⟩ := validate_total s
+  cases b with
+  | false => exact hb
+  | true => exact absurd ((validate_iff s).1 hb) hinv
 
-/-- **single fault, schema level**: a schema that is not valid (missing key, no fields,
-non-identifier name, unknown type, numeric field without fill, delimiter equal to or contained in
-the missing marker) and whose fields all carry a name is refused with the SCSV error -/
+/-- **single fault, schema level**: a schema that is not valid (missing key, no fields, field without
+name, non-identifier name, unknown type, numeric field without fill, delimiter equal to or contained
+in the missing marker) is refused with the SCSV error -/
 theorem save_invalid_schema (E : FloatExt) (s : Schema) (data : List (List Val)) (hne : data ≠ [])
-    (hnames : ∀ fs, s.fields = some fs → ∀ f ∈ fs, f.name ≠ none) (hinv : ¬ SchemaValid s) :
-    save E s data = .error .scsv :=
-  save_eq E s data _ (saveLines_of_validate_false E s data hne (validate_false_of_invalid s hnames hinv))
+    (hinv : ¬ SchemaValid s) : save E s data = .error .scsv :=
+  save_eq E s data _ (saveLines_of_validate_false E s data hne (validate_false_of_invalid s hinv))
 
 /-! the individual fault classes are instances of `¬ SchemaValid` -/
 
@@ -62,12 +55,13 @@ theorem invalid_delimiter_in_missing (s : Schema) (d m : Str) (h1 : s.delimiter 
   rw [h1] at hd; rw [h2] at hm; cases hd; cases hm; simp [h] at hinf
 
 theorem invalid_field (s : Schema) (fs : List Field) (f : Field) (h1 : s.fields = some fs) (hf : f ∈ fs)
-    (h : (∃ n, f.name = some n ∧ isIdentifier n = false) ∨ typeOf f.typeName = none ∨
+    (h : f.name = none ∨ (∃ n, f.name = some n ∧ isIdentifier n = false) ∨ typeOf f.typeName = none ∨
       (∃ t, typeOf f.typeName = some t ∧ t ≠ .str ∧ t ≠ .bool ∧ f.fill = none)) : ¬ SchemaValid s := by
   rintro ⟨d', m', fs', hd, hm, hfs, hne, hdm, hinf, hall⟩
   rw [h1] at hfs; cases hfs
   obtain ⟨⟨n, hn, hid⟩, t, ht, hfill⟩ := hall f hf
-  rcases h with ⟨n', hn', hid'⟩ | h | ⟨t', ht', h1', h2', h3'⟩
+  rcases h with h0 | ⟨n', hn', hid'⟩ | h | ⟨t', ht', h1', h2', h3'⟩
+  · rw [hn] at h0; cases h0
   · rw [hn] at hn'; cases hn'; simp [hid] at hid'
   · simp [h] at ht
   · rw [ht] at ht'; cases ht'
@@ -83,38 +77,9 @@ theorem save_unequal_columns (E : FloatExt) (s : Schema) (c0 : List Val) (cs : L
     rw [List.any_eq_true]; exact ⟨c, hc, by simp [hlen]⟩
   simp only [saveLines, this, if_true]
 
-/-- the fault that is NOT refused with the SCSV error: no data columns at all raises `IndexError` -/
-theorem save_no_columns (E : FloatExt) (s : Schema) : save E s [] = .error .index := by
+/-- no data columns at all: refused (since commit cc8cd84; `IndexError` before) -/
+theorem save_no_columns (E : FloatExt) (s : Schema) : save E s [] = .error .scsv := by
   simp [save, saveLines, Except.map]
-
-/-- the fault that is NOT refused with the SCSV error: a field without `name` raises `KeyError`
-(when the fields before it are valid and the three top-level keys are consistent) -/
-theorem validate_field_without_name (d m : Str) (pre post : List Field) (f : Field)
-    (hdm : d ≠ m) (hinf : isInfix d m = false) (hpre : ∀ g ∈ pre, FieldValid g) (hf : f.name = none) :
-    validate ⟨some d, some m, some (pre ++ f :: post)⟩ = .error .key := by
-  have hfields : validateFields (pre ++ f :: post) = .error .key := by
-    induction pre with
-    | nil => simp [validateFields, hf]
-    | cons g t ih =>
-      obtain ⟨⟨n, hn, hid⟩, ty, hty, hfill⟩ := hpre g (by simp)
-      simp only [List.cons_append, validateFields, hn, hid, hty]
-      have hcond : ¬ (ty ≠ .str ∧ ty ≠ .bool ∧ g.fill.isNone = true) := by
-        rintro ⟨h1, h2, h3⟩
-        have := hfill ⟨h1, h2⟩
-        cases hg : g.fill <;> simp_all
-      rw [if_neg hcond]
-      simpa using ih (fun g' hg' => hpre g' (by simp [hg']))
-  simp [validate, hdm, hinf, hfields]
-
-theorem save_field_without_name (E : FloatExt) (d m : Str) (pre post : List Field) (f : Field)
-    (c0 : List Val) (cs : List (List Val)) (hlen : ∀ c ∈ cs, c.length = c0.length)
-    (hdm : d ≠ m) (hinf : isInfix d m = false) (hpre : ∀ g ∈ pre, FieldValid g) (hf : f.name = none) :
-    save E ⟨some d, some m, some (pre ++ f :: post)⟩ (c0 :: cs) = .error .key := by
-  apply save_eq
-  have hany : cs.any (fun c => decide (c.length ≠ c0.length)) = false := by
-    rw [List.any_eq_false]; intro c hc; simp [hlen c hc]
-  simp only [saveLines, saveBody, hany, Bool.false_eq_true, if_false,
-    validate_field_without_name d m pre post f hdm hinf hpre hf, valueToScsv, Except.bind]
 
 /-! ### data-level faults -/
 
